@@ -832,40 +832,38 @@ Lemma rekey_first_rename_repaired_witness :
    /\ exists_ f2 (cw_a ++ [calc_id cw_repr cw_forged]) = false).                        (* the rejected value is gone   *)
 Proof. vm_compute. repeat split; eauto. Qed.
 
-(* ------------------------------------------------------------------ failing stat calls (isfile / isdir / lexists swallow errors) *)
-(* known finding 5: Job.clear() skips an entry whose stat fails and returns normally *)
+(* ------------------------------------------------------------------ failing stat calls *)
+(* the former failing inputs of known findings 5 and 6 (repaired in /repo: 187ceef, ed42bbc), kept as
+   regression witnesses.  5: Job.clear(), the lstat of a data file fails: the error propagates and the file is
+   still there (before: skipped, normal return). *)
 Definition clr_op : cop := KClear cw_a cw_id.
 Definition clr_sig : csig := {| sg_kind := SgStat; sg_p := cw_a ++ [cw_id; cw_data]; sg_q := [] |}.
 
-Lemma clear_stat_fault_silent_witness :
+Lemma clear_stat_fault_repaired_witness :
   post_ok cw_repr clr_op cw_f0 (fst (run (op_prog cw_repr true clr_op) cw_f0)) = true /\
   match find_occ clr_sig 0 (map fst (trace (op_prog cw_repr true clr_op) cw_f0)) 0 with
   | None => False
   | Some k =>
       let '(g, out) := run_fault (single k EIO) 0 (op_prog cw_repr true clr_op) cw_f0 in
-      out = inl tt /\ get g (cw_a ++ [cw_id; cw_data]) = Some (File cw_bytes) /\ post_ok cw_repr clr_op cw_f0 g = false
+      out = inr (POs EIO) /\ get g (cw_a ++ [cw_id; cw_data]) = Some (File cw_bytes)
   end.
 Proof. vm_compute. repeat split; eauto. Qed.
 
-(* known finding 6: clone onto an EXISTING destination; the lexists() of the destination fails (read as "not
-   there") and the mkdir of the destination fails with an errno other than EEXIST: the clean-up deletes the
-   destination job that was there before.  Either fault alone leaves it untouched. *)
+(* 6: clone onto an EXISTING destination; the lstat of the destination fails AND the mkdir of the destination
+   would fail: the first error propagates before anything is copied, the destination job is untouched (before:
+   the clean-up removed it) *)
 Definition cx_f0 : fs := cw_f0 ++ [ (cw_b ++ [cw_id], Dir); (cw_b ++ [cw_id; SPF], File (jcontent cw_repr cw_sp));
                                     (cw_b ++ [cw_id; cw_data], File cw_bytes) ].
 Definition cx_stat : csig := {| sg_kind := SgStat; sg_p := cw_b ++ [cw_id]; sg_q := [] |}.
 Definition cx_mkdir : csig := {| sg_kind := SgMkdir; sg_p := cw_b ++ [cw_id]; sg_q := [] |}.
 
-Lemma clone_lexists_double_fault_witness :
+Lemma clone_lstat_double_fault_repaired_witness :
   match find_occ cx_stat 0 (map fst (trace (op_prog cw_repr true cw_op) cx_f0)) 0,
         find_occ cx_mkdir 0 (map fst (trace (op_prog cw_repr true cw_op) cx_f0)) 0 with
   | Some k1, Some k2 =>
       let both := fun i => if Nat.eqb i k1 then Some EIO else if Nat.eqb i k2 then Some EIO else None in
-      (let '(g, out) := run_fault both 0 (op_prog cw_repr true cw_op) cx_f0 in
-       (exists e, out = inr e) /\ exists_ g (cw_b ++ [cw_id]) = false)
-      /\ (let '(g, out) := run_fault (single k1 EIO) 0 (op_prog cw_repr true cw_op) cx_f0 in
-          (exists e, out = inr e) /\ forallb (fun e => node_same (get cx_f0 (fst e)) (get g (fst e))) (cx_f0 ++ g) = true)
-      /\ (let '(g, out) := run_fault (single k2 EIO) 0 (op_prog cw_repr true cw_op) cx_f0 in
-          (exists e, out = inr e) /\ forallb (fun e => node_same (get cx_f0 (fst e)) (get g (fst e))) (cx_f0 ++ g) = true)
+      let '(g, out) := run_fault both 0 (op_prog cw_repr true cw_op) cx_f0 in
+      out = inr (POs EIO) /\ forallb (fun e => node_same (get cx_f0 (fst e)) (get g (fst e))) (cx_f0 ++ g) = true
   | _, _ => False
   end.
 Proof. vm_compute. repeat split; eauto. Qed.
